@@ -68,7 +68,7 @@ def no_member_after_handler(run, ol, tag):
             if after:
                 late.append(n)
         run.check(not late, 'R15', 'no-member-after-handler', '%s<%s>' % (ol.norm, tag), ol.loc(late[0]) if late else ol.loc(f.site),
-                  'on_lookup reads %s after invoking the user\'s handler: a handler that calls cancel() leaves the queue empty (front() of an empty vector), one that destroys the resolver leaves `this` dangling (use after free)'
+                  'the function reads %s after invoking the user\'s handler inline: a handler that cancels the object leaves its queues empty (front() of an empty vector), one that destroys it leaves `this` dangling (use after free)'
                   % sorted({q.render(ol, n) for n in late})[:4], 'nothing of *this is touched after the handler has been invoked')
 
 
